@@ -22,7 +22,7 @@ from fractions import Fraction
 
 from common import err_kind, frac_token, lst
 
-NEG = -50          # stands for -inf on the model side (below every order value used here)
+NEG = -10**6     # stands for -inf on the model side (below every order value used here)
 PAD = 9            # length of the padding that keeps a scripted MD program "running"
 
 
@@ -133,7 +133,55 @@ def engine_classes():
                 rest.append((c[0], c, 0))
             return 0, rest
 
-    _ENGINE_CLASSES.update(S=ScriptedEngine, R=ReversibleEngine)
+    from infretis.classes.orderparameter import OrderParameter
+
+    class VelOP(OrderParameter):
+        """velocity-dependent order parameter  λ = 2·x + v  (second component v), integer valued"""
+
+        def __init__(self):
+            super().__init__(description="2x+v", velocity=True)
+
+        def calculate(self, system):
+            x = system.pos[0][0]
+            v = system.vel[0][0]
+            return [float(2 * x + v), float(v)]
+
+    class VelOrderEngine(ReversibleEngine):
+        """the integer leap-frog engine with every frame's order parameter computed by the REAL
+        `EngineBase.calculate_order(system, xyz=, vel=, box=)` (as all engines do while propagating): the stored
+        velocities are handed over and calculate_order must negate them for vel_rev frames."""
+
+        def __init__(self, eid, fs, log, exe_dir, a, k, nsteps):
+            super().__init__(eid, fs, log, exe_dir, a, k, nsteps)
+            self.order_function = VelOP()
+            self.played = []          # the frame stream of every call, as a Script of the model
+
+        def _propagate_from(self, name, path, system, ens_set, msg_file, reverse=False):
+            left, _, right = ens_set["interfaces"]
+            init = self.fs[system.config[0]][system.config[1]]
+            given = system.order[0]
+            conts = [init]
+            for _ in range(self.nsteps):
+                conts.append(self.step(conts[-1]))
+            orders = [self.calculate_order(system, xyz=np.array([[float(c[0])]]), vel=np.array([[float(c[1])]]),
+                                           box=np.zeros(3)) for c in conts]
+            # the request as the model sees it: frame 0 carries the order value the engine computed for it
+            self.log.append(f"P:{self.eid}:{1 if reverse else 0}:{tok_num(orders[0][0])}:{init[0]}:{init[1]}:"
+                            f"{max(0, path.maxlen)}:{tok_num(left)}:{tok_num(right)}:{self.fresh(system)}")
+            self.played.append((0, [(int(o[0]), c, 0) for o, c in zip(orders[1:], conts[1:])]))
+            self.first_orders = getattr(self, "first_orders", []) + [(given, orders[0][0])]
+            traj_file = os.path.join(self.exe_dir, f"{name}.{self.ext}")
+            success, status = False, "program ended"
+            for i, (o, c) in enumerate(zip(orders, conts)):
+                snap = {"order": list(o), "config": (traj_file, i), "vel_rev": reverse, "vpot": 0, "ekin": 0.0}
+                pp = self.snapshot_to_system(system, snap)
+                status, success, stop, _ = self.add_to_path(path, pp, left, right)
+                if stop:
+                    break
+            self.fs[traj_file] = conts
+            return success, status
+
+    _ENGINE_CLASSES.update(S=ScriptedEngine, R=ReversibleEngine, V=VelOrderEngine)
     return _ENGINE_CLASSES
 
 
@@ -242,6 +290,17 @@ def start_cond(sc):
     return ()
 
 
+def played_scripts(c, eng0, eng1):
+    """for the velocity-order engine: the frame streams it produced, in the model's script order"""
+    if c.get("engine") != "vel":
+        return None
+    p0, p1 = list(eng0.played), list(eng1.played)
+    empty = (None, [])
+    if c["kind"] == "retis":
+        return [p0[0] if p0 else empty, p1[0] if p1 else empty]
+    return [p0[0] if p0 else empty, p1[0] if p1 else empty, p0[1] if len(p0) > 1 else empty, p1[1] if len(p1) > 1 else empty]
+
+
 def snapshot(p):
     """deep snapshot of an old path: what C09 calls "the old path's frames and files" plus the path-level fields"""
     frames = []
@@ -334,7 +393,10 @@ class World:
         fs = {} if fs is None else fs
         log = []
         d = self.dirs[dirk]
-        if c["kind"] == "retisdet":
+        if c.get("engine") == "vel":
+            eng0 = E["V"](0, fs, log, d, c["a"], c["k"], c["n"])
+            eng1 = E["V"](1, fs, log, d, c["a"], c["k"], c["n"])
+        elif c["kind"] == "retisdet":
             eng0 = E["R"](0, fs, log, d, c["a"], c["k"], c["n"])
             eng1 = E["R"](1, fs, log, d, c["a"], c["k"], c["n"])
         elif c["kind"] == "retis":
@@ -366,7 +428,8 @@ class World:
         try:
             accept, paths, status = fn(picked, engines)
         except Exception as e:  # noqa: BLE001
-            return {"err": err_kind(e), "reqs": list(log), "mutated": mutated(), "olds": (old0, old1)}
+            return {"err": err_kind(e), "reqs": list(log), "mutated": mutated(), "olds": (old0, old1),
+                    "played": played_scripts(c, eng0, eng1)}
         finally:
             self.tis.np = saved
         ea = p = None
@@ -380,6 +443,7 @@ class World:
             "path0": self.read_path(fs, paths[0]), "path1": self.read_path(fs, paths[1]),
             "reqs": list(log), "same": paths[0] is old0 and paths[1] is old1, "objs": paths,
             "nexp": len(self.proxy.exp_log), "mutated": mutated(), "olds": (old0, old1),
+            "played": played_scripts(c, eng0, eng1),
         }
 
 
@@ -682,6 +746,119 @@ def det_cases(ctx):
     return cases
 
 
+def vel_cases(ctx):
+    """trajectory pairs of the integer leap-frog engine classified by the velocity-dependent order parameter
+    λ = 2x + v (of the PHYSICAL velocity), stored with random vel_rev flags"""
+    rng = ctx.rng
+    cases = []
+    want = 300 if ctx.quick else 4000
+    tries = 0
+    lam = lambda c: 2 * c[0] + c[1]  # noqa: E731
+    while len(cases) < want and tries < 400 * want:
+        tries += 1
+        a = rng.choice((36, 64, 100))
+        k = rng.choice((16, 32, 64, 128))
+        step = lambda c: dw_step(a, k, c)  # noqa: E731
+        lam0 = 2 * (-int(a ** 0.5) + rng.randint(0, 4)) + rng.randint(-1, 1)
+        lamN = lam0 + rng.randint(2, 16)
+        tr0 = traj_from(step, (rng.randint(-12, 0), -rng.randint(0, 4)), 14)
+        if lam(tr0[0]) <= lam0:
+            continue
+        k0 = next((j for j in range(1, len(tr0)) if lam(tr0[j]) > lam0), None)
+        if k0 is None or k0 < 2:
+            continue
+        tr0 = tr0[: k0 + 1]
+        tr1 = traj_from(step, (rng.randint(-12, 0), rng.randint(0, 4)), 14)
+        if lam(tr1[0]) >= lam0:     # the one-step crossing of QuanTIS wants it strictly left
+            continue
+        k1 = next((j for j in range(1, len(tr1)) if lam(tr1[j]) < lam0 or lam(tr1[j]) > lamN), None)
+        if k1 is None or k1 < 2:
+            continue
+        tr1 = tr1[: k1 + 1]
+        m = max(len(tr0), len(tr1)) + rng.choice((1, 2, 5, 12))
+
+        def store(tr):
+            out = []
+            for c in tr:
+                vr = rng.random() < 0.4
+                out.append((lam(c), (c[0], -c[1] if vr else c[1]), vr, 0))
+            return out
+        base = {"engine": "vel", "a": a, "k": k, "n": m + 2,
+                "e0": ens((NEG, lam0, lam0), m, (False, True)), "e1": ens((lam0, lam0, lamN), m, (True, False)),
+                "old0": store(tr0), "old1": store(tr1), "xi": Fraction(1, 2)}
+        cases.append(dict(base, kind="retis", tag="velocity-order-retis"))
+        cases.append(dict(base, kind="quantis", tag="velocity-order-quantis", aa=False, beta0=Fraction(1), beta1=Fraction(1)))
+    return cases
+
+
+def full_orders(p):
+    return [[float(x) for x in fr.order] for fr in p.phasepoints]
+
+
+def vel_block(ctx, W, have_model):
+    """zero swaps with the order parameter computed through the REAL EngineBase.calculate_order (velocity dependent):
+    junction identity and swap-twice on the full order vectors, model comparison on the streams the engine produced"""
+    lines, codes = [], []
+
+    def one(c, fs, old_paths, dirk):
+        r = W.run(c, fs=fs, old_paths=old_paths, dirk=dirk)
+        cm = dict(c, scripts=r["played"])
+        br = check_case(ctx, cm, r)
+        ctx.count(1, branch=f"vel:{c['kind']}:{br}", gen=c["tag"])
+        p = Fraction(r["p"]) if ("err" not in r and r.get("p") is not None) else Fraction(1)
+        lines.append(case_line(cm, p))
+        codes.append(code_line(r))
+        return r, cm
+
+    for c in vel_cases(ctx):
+        rep = strip(c)
+        fs = {}
+        o0 = [[float(f[0]), float(phys(f)[1])] for f in c["old0"]]
+        o1 = [[float(f[0]), float(phys(f)[1])] for f in c["old1"]]
+        # the old paths carry the full order vector [2x+v, v] of their physical phase points
+        old0 = W.mk_path(fs, "old0", c["old0"])
+        old1 = W.mk_path(fs, "old1", c["old1"])
+        for p_, oo in ((old0, o0), (old1, o1)):
+            for fr, o in zip(p_.phasepoints, oo):
+                fr.order = list(o)
+        r1, cm = one(c, fs, (old0, old1), 1)
+        ctx.distinct(lines[-1])
+        if "err" in r1:
+            continue
+        if not r1["accept"]:
+            continue
+        n0, n1 = full_orders(r1["objs"][0]), full_orders(r1["objs"][1])
+        if c["kind"] == "retis":
+            if n0[-2:] != o1[:2] or n1[:2] != o0[-2:]:
+                ctx.fail("C11:junction", f"order vectors at the junction: new[0-][-2:]={n0[-2:]} vs old[0+][:2]={o1[:2]}; "
+                         f"new[0+][:2]={n1[:2]} vs old[0-][-2:]={o0[-2:]}", rep)
+        else:
+            if n0[-2] != o1[0] or n1[0] != o0[-2]:
+                ctx.fail("C11:quantis-junction", f"order vectors at the junction: new[0-][-2]={n0[-2]} vs old[0+][0]={o1[0]}; "
+                         f"new[0+][0]={n1[0]} vs old[0-][-2]={o0[-2]}", rep)
+            continue
+        # swap twice (retis): order vectors and phase points come back
+        c2 = dict(c, old0=r1["path0"], old1=r1["path1"])
+        r2, _ = one(c2, fs, tuple(r1["objs"]), 2)
+        if "err" in r2 or not r2["accept"]:
+            ctx.fail("C11:swap-twice-second-rejected", f"second swap of an accepted pair (velocity-dependent order parameter): "
+                     f"{r2.get('status', r2.get('err'))}", rep)
+            continue
+        b0, b1 = full_orders(r2["objs"][0]), full_orders(r2["objs"][1])
+        if b0 != o0 or b1 != o1:
+            ctx.fail("C11:swap-twice-not-identity", f"velocity-dependent order parameter: after two swaps [0-] {[x[0] for x in b0]} vs "
+                     f"{[x[0] for x in o0]}; [0+] {[x[0] for x in b1]} vs {[x[0] for x in o1]}", rep)
+        if [phys(f) for f in r2["path0"]] != [phys(f) for f in c["old0"]] or [phys(f) for f in r2["path1"]] != [phys(f) for f in c["old1"]]:
+            ctx.fail("C11:swap-twice-phase-points", "two swaps do not restore the phase points (velocity-dependent order parameter)", rep)
+    if have_model and lines:
+        out = ctx.driver(lines)
+        for ln, cl, ml in zip(lines, codes, out):
+            if cl != ml:
+                ctx.disagree({"line": ln}, cl, ml)
+    if lines:
+        ctx.sample({"case": lines[0], "code": codes[0]})
+
+
 # --------------------------------------------------------------------------- the run
 def check_case(ctx, c, r):
     """property predicates on the real output `r` of case `c`; returns branch label"""
@@ -693,6 +870,16 @@ def check_case(ctx, c, r):
                  f"zero swap ({c['kind']}, outcome {r.get('status', r.get('err'))}) changed the OLD path it was given — "
                  f"{r['mutated']}; violates C09 'a rejected move leaves the old path's frames and files untouched' "
                  f"(and on ACC run_md only replaces references)", rep)
+    if c.get("engine") == "vel" and "err" not in r:
+        # every frame must carry the order parameter of its PHYSICAL phase point (velocity-dependent λ = 2x+v)
+        for pth in (r["path0"], r["path1"]):
+            bad = [f for f in pth if f[1][0] != "missing-file" and f[0] != 2 * phys(f)[0] + phys(f)[1]]
+            if bad:
+                f = bad[0]
+                ctx.fail("C11:order-value-not-of-the-phase-point",
+                         f"frame {f}: order value {f[0]} but its physical phase point {phys(f)} has 2x+v = "
+                         f"{2 * phys(f)[0] + phys(f)[1]} (calculate_order must use -v for vel_rev frames, cf. C20/C12)", rep)
+                break
     stale = [q for q in r.get("reqs", []) if q.endswith(":OLD")]
     if stale:
         ctx.fail("C11:old-frame-handed-to-engine",
@@ -715,7 +902,7 @@ def check_case(ctx, c, r):
         why = junction_ok(c, r)
         if why:
             ctx.fail("C11:junction", why, rep)
-        nondry = kind == "retisdet" or all(len(s[1]) + 2 >= e1["maxlen"] for s in c["scripts"])
+        nondry = kind == "retisdet" or c.get("engine") == "vel" or all(len(s[1]) + 2 >= e1["maxlen"] for s in c["scripts"])
         if e0["maxlen"] <= e1["maxlen"] and nondry and ordered(e0) and ordered(e1) and e0["i"][2] == e1["i"][0] \
                 and valid_minus(e0, c["old0"]) and valid_plus(e1, c["old1"]):
             if not valid_minus(e0, r["path0"]) or len(r["path0"]) >= e0["maxlen"]:
@@ -927,6 +1114,8 @@ def _run(ctx, W):
             ctx.disagree(strip(c), cl, out[k])
         if k == 11:
             ctx.sample({"case": case_line(c), "code": cl})
+    # ------------------------------------------------------------------ velocity-dependent order parameter
+    vel_block(ctx, W, have_model)
     # ------------------------------------------------------------------ quantis
     qbase = quantis_cases(ctx)
     qcases, qres = [], []
@@ -1035,6 +1224,11 @@ def _run(ctx, W):
         "exp is outside the model: the model gets the float value np.exp returned; the harness checks the exponent exactly and the value against math.exp (rel 1e-14)",
         "membership / swap-twice predicates are evaluated for maxlen0 ≤ maxlen1 (both come from the same tis_set dict in every configuration) and MD programs that do not end before maxlen",
         "`generated`, `time_origin`, `path_number` of the new paths are not compared",
+        "order values are opaque data produced by the engine in the model (ZeroSwap frames); that the order value of a vel_rev frame is the "
+        "order parameter of its physical phase point (EngineBase.calculate_order uses -v for vel_rev frames: C20's theorem on the sign, C12) "
+        "is checked here at run time with a VelOrderEngine that routes every frame through the REAL calculate_order with the "
+        "velocity-dependent order parameter [2x+v, v]; swap_twice_identity is proved for an order function even in v, the "
+        "velocity-dependent case is covered by this run-time part only",
         "old-path snapshot (C09 clause for zero swaps): per frame object identity, order list identity+contents, config, vel_rev, vpot, ekin, "
         "the content of the files the frames point to; per path status/generated/weights/weight/maxlen/path_number/time_origin — compared "
         "around EVERY call; plus the sequence rejected-swap → clean_up → second move vs the same second move on fresh copies",
